@@ -13,6 +13,22 @@ impl Duration {
     #[verifier::external_body] pub fn from_secs(secs: u64) -> (r: Duration) ensures r.ns() == (secs as nat) * 1_000_000_000 { unimplemented!() }
     #[verifier::external_body] pub fn from_millis(ms: u64) -> (r: Duration) ensures r.ns() == (ms as nat) * 1_000_000 { unimplemented!() }
     #[verifier::external_body] pub fn as_nanos(&self) -> (r: u128) ensures r == self.ns() { unimplemented!() }
+    #[verifier::external_body] pub fn zero_value() -> (r: Duration) ensures r.ns() == 0 { unimplemented!() }
+    #[verifier::external_body] pub fn as_secs(&self) -> (r: u64) ensures r == self.ns() / 1_000_000_000 { unimplemented!() }
+    #[verifier::external_body] pub fn subsec_nanos(&self) -> (r: u32) ensures r == self.ns() % 1_000_000_000 { unimplemented!() }
+    #[verifier::external_body] pub fn as_millis(&self) -> (r: u128) ensures r == self.ns() / 1_000_000 { unimplemented!() }
+    #[verifier::external_body] pub fn as_micros(&self) -> (r: u128) ensures r == self.ns() / 1_000 { unimplemented!() }
+    #[verifier::external_body] pub fn from_nanos(n: u64) -> (r: Duration) ensures r.ns() == n { unimplemented!() }
+    #[verifier::external_body] pub fn from_micros(n: u64) -> (r: Duration) ensures r.ns() == (n as nat) * 1_000 { unimplemented!() }
+    #[verifier::external_body] pub fn max(self, o: Duration) -> (r: Duration) ensures r.ns() == (if self.ns() >= o.ns() { self.ns() } else { o.ns() }) { unimplemented!() }
+    #[verifier::external_body] pub fn checked_add(self, o: Duration) -> (r: Option<Duration>)
+        ensures self.ns() + o.ns() <= dur_max() ==> r is Some && r->Some_0.ns() == self.ns() + o.ns(), self.ns() + o.ns() > dur_max() ==> r is None { unimplemented!() }
+    #[verifier::external_body] pub fn saturating_add(self, o: Duration) -> (r: Duration)
+        ensures r.ns() == (if self.ns() + o.ns() > dur_max() { dur_max() } else { self.ns() + o.ns() }) { unimplemented!() }
+    #[verifier::external_body] pub fn checked_sub(self, o: Duration) -> (r: Option<Duration>)
+        ensures self.ns() >= o.ns() ==> r is Some && r->Some_0.ns() == self.ns() - o.ns(), self.ns() < o.ns() ==> r is None { unimplemented!() }
+    #[verifier::external_body] pub fn saturating_sub(self, o: Duration) -> (r: Duration)
+        ensures r.ns() == (if self.ns() >= o.ns() { self.ns() - o.ns() } else { 0 }) { unimplemented!() }
     #[verifier::external_body] pub fn is_zero(&self) -> (r: bool) ensures r == (self.ns() == 0) { unimplemented!() }
     #[verifier::external_body] pub fn min(self, o: Duration) -> (r: Duration) ensures r.ns() == (if self.ns() <= o.ns() { self.ns() } else { o.ns() }) { unimplemented!() }
     #[verifier::external_body] pub fn saturating_mul(self, rhs: u32) -> (r: Duration)
